@@ -18,29 +18,35 @@ KF_UNION = "C36-union-decode-inserts-coercion-projection"
 COERCE_ITEM = re.compile(r"^(CAST\(\w+@\d+ AS [^@]+\) as \w+|\w+@\d+ as \w+)$")
 
 
-def strip_union_coercions(text):
-    """remove the pure cast / pass-through ProjectionExecs that sit directly under a UnionExec (and dedent their subtrees)"""
-    lines = text.split("\n")
-    out, i = [], 0
+def only_union_coercions_inserted(plan, back):
+    """True iff `back` (decoded) is `plan` (original) with pure cast / pass-through ProjectionExecs inserted directly under UnionExec nodes"""
     ind = lambda l: len(l) - len(l.lstrip(" "))
-    while i < len(lines):
-        l = lines[i]
-        m = re.match(r"^( *)ProjectionExec: expr=\[(.*)\]$", l)
-        if m and "CAST(" in m.group(2):
-            items = m.group(2).split(", ")
-            k = len(out) - 1
-            while k >= 0 and ind(out[k]) >= ind(l):
-                k -= 1
-            if k >= 0 and out[k].strip() == "UnionExec" and all(COERCE_ITEM.match(x) for x in items):
-                j = i + 1
-                while j < len(lines) and lines[j].strip() and ind(lines[j]) > ind(l):
-                    out.append(lines[j][2:])
-                    j += 1
-                i = j
-                continue
-        out.append(l)
-        i += 1
-    return "\n".join(out)
+    a = [l for l in plan.rstrip("\n").split("\n")]
+    b = [l for l in back.rstrip("\n").split("\n")]
+    i = j = 0
+    inserted = 0
+    while i < len(a) and j < len(b):
+        if a[i] == b[j]:
+            i += 1
+            j += 1
+            continue
+        m = re.match(r"^( *)ProjectionExec: expr=\[(.*)\]$", b[j])
+        if not m or "CAST(" not in m.group(2) or not all(COERCE_ITEM.match(x) for x in m.group(2).split(", ")):
+            return False
+        k = j - 1
+        while k >= 0 and ind(b[k]) >= ind(b[j]):
+            k -= 1
+        if k < 0 or b[k].strip() != "UnionExec":
+            return False
+        # drop the inserted line and dedent its subtree
+        base = ind(b[j])
+        del b[j]
+        t = j
+        while t < len(b) and ind(b[t]) > base:
+            b[t] = b[t][2:]
+            t += 1
+        inserted += 1
+    return inserted > 0 and i == len(a) and j == len(b)
 
 
 def classify(c):
@@ -54,7 +60,7 @@ def classify(c):
             return KF_REORDER
     if why.startswith("displayable().indent(true) differs after the round trip:\n") and "UnionExec" in plan and not c.get("diff") and not plan.endswith("..."):
         back = why.split("\n", 1)[1]
-        if back.rstrip("\n") != plan.rstrip("\n") and strip_union_coercions(back).rstrip("\n") == plan.rstrip("\n"):
+        if only_union_coercions_inserted(plan, back):
             return KF_UNION
     return None
 
